@@ -48,6 +48,11 @@ CHECKS = {
     note="partial: OS descriptors are ids in a ledger; close() is assumed not to raise inside _connect; send/recv failures are covered by the monitor and by C01's exchange model, not by the connect model; UNIX sockets ignore tls_context/no_delay (as the code does).",
     technique="Lean 4 proof (symbolic evaluation of the address loop + log invariants over call sequences) + exhaustive small-plan correspondence + ledger monitor",
     ref="§6 C06"),
+ "C07": dict(
+    text="Lean theorems over Client.call with ignoreExc for every read operation, config and script: C07_ignore_exc_never_raises (only an argument error before any I/O, or a BaseException, can escape), C07_ignore_exc_is_miss (any other failure of the same call without the flag becomes exactly the miss result, and the socket is closed), C07_ignore_exc_transparent_on_success, C07_ignore_exc_only_swallows, C07_miss_on_healthy_empty_server (the miss result is what the call returns on an empty faithful server), C07_next_call_reconnects. Tied to /repo by comparing, for Client, PooledClient, HashClient and pooled HashClient x 11 read forms (defaults by keyword, positional for get/gat) x every failure plan (connect/send faults, recv faults at every position, 8 reply mutations, failing deserialiser) x key present/absent, the failure result with the result of the same call on an empty healthy server of the real code, plus usability afterwards; Client runs are compared with the model.",
+    note="Lean kernel + standard axioms; the theorems are about the Client model (the wrappers' shapes are judged by the monitor against the real miss result); failures are Exception-class (BaseException is C10).",
+    technique="Lean 4 proof (case analysis of the fetch exchange under ignore_exc; refinement to the empty map for the miss value) + failure-vs-miss comparison on the real code",
+    ref="§6 C07"),
  "C08": dict(
     text="Lean theorems over a micro-step interleaving model of ObjectPool (any number of threads, any programs over use/fail/quit/clear, every interleaving, every reachable state): C08_mutex, C08_held_by_at_most_one, C08_no_duplicates_and_capacity, C08_no_internal_error, C08_no_deadlock, C08_quiescent_accounting, C08_closed_at_most_once; the socket-leak clause is proved only as C08_no_socket_leak_partial (no clear() racing with a holder) with the counterexample schedule proved (open finding). Tied to /repo by (K) exact event-sequence equality of every sequential branch of the real pool with the model and (S) a deterministic scheduler that explores pre-emption-bounded interleavings of real threads over the real pool.py, judges the invariants on the real objects and validates every interleaved event trace as a run of the model.",
     note="partial: interleaving granularity is the source line (opcodes sampled), the GIL and threading.Lock are trusted; the scheduler is search support and trace source, not a proof; open finding C08-clear-vs-holder.",
@@ -58,6 +63,11 @@ CHECKS = {
     note="Lean kernel + standard axioms; one timestamp per call; integer ticks; a connection = a successfully connected socket; concurrency is C08.",
     technique="Lean 4 proof (8-field inductive invariant over call histories) + correspondence + ledger monitor",
     ref="§6 C09"),
+ "C10": dict(
+    text="Lean theorems: C10_interrupt_closes_socket (any call, any ignore_exc: a BaseException result means the socket is closed), C10_interrupt_comes_from_the_connection, C10_interrupt_not_swallowed(_exchange), C10_own_bytes_only_interrupt (C01's run-level ownership theorems for scripts interrupted by a BaseException at any connect/send/recv), C10_slot_not_lost (from C08: for every interleaving, when all threads are done nothing is checked out), C10_slot_not_lost_sequential and C10_pooled_interrupted_connection_never_reused (from C09). Tied to /repo by the C01 byte-tag oracle with KeyboardInterrupt / SystemExit / a BaseException subclass raised at getaddrinfo, socket, connect, settimeout, sendall and every recv position of all 27 operations, with and without a warm-up call, followed by further calls, on Client, PooledClient (max_pool_size 1 and 2) and HashClient (plain, pooled), plus pool.used after the aborted call; Client runs compared with the model.",
+    note="partial: interruptions are modelled as outcomes of socket calls only (signal delivery between other bytecodes is not modelled); sendall is atomic in the fake socket (all or nothing).",
+    technique="Lean 4 proof (corollaries of the C01 ownership invariant and the C08/C09 pool invariants for BaseException faults) + fault enumeration with the byte-tag oracle",
+    ref="§6 C10"),
  "C11": dict(
     text="Lean theorems (C11_getNode_eq_some_iff, C11_getNode_set_ext/perm, C11_getNode_history_indep, C11_remove_moves_only_owner, C11_add_moves_only_to_new, spelling equivalences) hold for an arbitrary score function (so also under forced ties), any node list and any add/remove history; tied to /repo by differential runs of RendezvousHash.get_node against the model (murmur, constant and two-valued hashes), all permutations of small node sets, random histories, HashClient through the client_class seam with equivalent spellings, and fresh interpreters with different PYTHONHASHSEED. 'Spread' is measured, not proved.",
     note="Lean kernel + standard axioms; score is a parameter (murmur3 correctness is C14); str order = code-point order; spelling equivalence modelled for the constructor path and decimal ports; spread is statistical (partial).",
